@@ -1068,7 +1068,9 @@ bool Builder::ExtractDeps(BuildResult::CommandCompleted& result,
       deps_nodes->push_back(state_->GetNode(*i, slash_bits));
     }
 
-    if (!g_keep_depfile) {
+    // A dry run must leave the tree alone: the depfile belongs to the last
+    // real run of the command.
+    if (!g_keep_depfile && !config_.dry_run) {
       if (disk_interface_->RemoveFile(depfile) < 0) {
         *err = string("deleting depfile: ") + strerror(errno) + string("\n");
         return false;
